@@ -179,6 +179,15 @@ def gen_inputs(tier):
                 for chain in itertools.product(posts, repeat=n):
                     e = pre + atom + "".join(chain)
                     yield ("postfix/%d" % n, {"model.yml": HOST.replace("E: !enum", "  computedFields:\n    c: %s\nE: !enum" % q(e), 1)}, PKG)
+    # (2d') integer literals at the edges of 32 / 63 / 64 bits wherever an index or a dimension number is expected
+    lits = ["0", "1", "2", "3", "-1", "2147483647", "2147483648", "4294967296", "9223372036854775807", "9223372036854775808", "18446744073709551615",
+            "18446744073709551616", "-9223372036854775808", "-9223372036854775809", "0x8000000000000000", "1e3", "1.0"]
+    forms = ["size(a, %s)", "size(n, %s)", "size(nd, %s)", "size(d, %s)", "size(v, %s)", "a[%s, 0]", "a[0, %s]", "n[%s, 0]", "d[%s]", "v[%s]", "nd[x: %s, y: 0]", "m[%s]",
+             "dimensionIndex(nd, %s)", "x + %s", "%s", "x as int + %s", "v[%s] + a[%s, %s]"]
+    for f in forms:
+        for l in lits:
+            e = f.replace("%s", l)
+            yield ("literal-edges", {"model.yml": HOST.replace("E: !enum", "  computedFields:\n    c: %s\nE: !enum" % q(e), 1)}, PKG)
     # (2e) reference cycles reached from every host position, incl. the base type of an enum / flags
     cyc = "CA: CB\nCB: CA\nRC: !record\n  fields:\n    r: RC\nCG<T>: CG<T>\n"
     chosts = dict(hosts)
@@ -288,6 +297,20 @@ def gen_inputs(tier):
     for node in l1[::(7 if quick else 1)]:
         for key in ("namespace", "imports", "versions", "cpp", "python", "json", "matlab", "bogus"):
             yield ("manifest/" + key, {"model.yml": "X: int\n"}, "namespace: T\n%s: %s\n" % (key, node) if key != "namespace" else "namespace: %s\n" % node)
+    # (4a) two or three things wrong with one manifest at once (none of them has a line number), also in an imported package's
+    #      and in a previous version's manifest
+    wrongs = ["namespace: bad_ns\n", "python:\n  outputDir: \"\"\n", "cpp: {}\n", "json: {}\n", "matlab:\n  outputDir:\n", "versions:\n  1bad: .\n", "versions:\n  bad-label: ../nosuch\n",
+              "imports:\n  - ../nosuch\n", "imports: [\"\", \"\"]\n"]
+    for r in (2, 3):
+        for combo in itertools.combinations(wrongs, r):
+            if sum(1 for w in combo if w.startswith("versions")) > 1 or sum(1 for w in combo if w.startswith("imports")) > 1:
+                continue
+            body = "".join(combo)
+            man = body if "namespace" in body else "namespace: T\n" + body
+            yield ("manifest/several-errors", {"model.yml": "X: int\n"}, man)
+            if r == 2:
+                yield ("manifest/several-errors-imported", {"model.yml": "X: int\n", "imp/_package.yml": man.replace("namespace: T", "namespace: Imp"), "imp/model.yml": "Z: int\n"}, "namespace: T\nimports:\n  - imp\n")
+                yield ("manifest/several-errors-version", {"model.yml": "X: int\n", "old/_package.yml": man, "old/model.yml": "X: int\n"}, "namespace: T\nversions:\n  v0: old\n")
     for n in range(0, nb + 1):
         for bs in itertools.product(BYTES, repeat=n):
             yield ("manifest/bytes", {"model.yml": "X: int\n"}, b"".join(bs))
